@@ -40,6 +40,23 @@ func genC15Hdr(g *rand.Rand, tier string) any {
 		p.Calls = append(p.Calls, c)
 		p.Callers = append(p.Callers, Caller{Conn: 0, Calls: []int{c.ID}})
 	}
+	for k := g.IntN(3); k > 0; k-- {
+		// a unary handler that fans out: one goroutine sends its headers, another sets
+		// more headers and trailers (grpc.SendHeader / SetHeader / SetTrailer on the
+		// handler's context are safe for concurrent use)
+		c := &CallSpec{ID: len(p.Calls) + 1, Kind: KUnary, ReqLen: 12, RespLen: 12}
+		var hb []Op
+		for j := 1 + g.IntN(3); j > 0; j-- {
+			if g.IntN(2) == 0 {
+				hb = append(hb, Op{K: 'H', MD: drawMD(g, 3)})
+			} else {
+				hb = append(hb, Op{K: 'T', MD: drawMD(g, 3)})
+			}
+		}
+		c.HProg = []Op{{K: 'f', A: []Op{{K: 'S', MD: drawMD(g, 3)}}, B: hb}}
+		p.Calls = append(p.Calls, c)
+		p.Callers = append(p.Callers, Caller{Conn: 0, Calls: []int{c.ID}})
+	}
 	if g.IntN(2) == 0 {
 		// a call the peer finishes before its caller has touched the stream object (a
 		// handler, or an interceptor, that refuses it at once): whatever the library sets
